@@ -29,7 +29,7 @@ TOP_FLAGS = ["top_aa", "top_bb", "top_cc"]
 NEST_FLAGS = ["n_aa", "n_bb", "n_uint", "n_outer", "n_cc"]
 TYPE_PROBES = ["Aa", "Bb", "UInt", "Outer", "Cc", "Outer.Aa", "Outer.Outer", "im.Aa", "im.Bb", "Zz", "im.Zz", "Outer.Bb"]
 VALUE_PROBES = ["x", "xa", "p", "Bb.VV", "Outer.Bb.VV", "im.Bb.VV", "VV", "y.x", "y.xa", "o.x", "o.xa", "Aa.k", "im.Aa.k", "zz",
-                "x.y", "Outer.x", "im.Aa.x", "Cc.VV", "im", "ya.x", "oy.x", "o.y.x", "o.ya.x", "oy.k", "ya.zz", "o.p", "p.x", "o.p.x", "Outer.p"]
+                "x.y", "Outer.x", "im.Aa.x", "Cc.VV", "im", "ya.x", "oy.x", "o.y.x", "o.ya.x", "oy.k", "ya.zz", "o.p", "p.x", "o.p.x", "Outer.p", "nib", "nb", "big", "o.nib", "o.nb"]
 SITES_TYPE = ["outer_field", "nested_field", "dd_field"]
 SITES_VALUE = ["outer_let", "nested_let", "dd_let", "outer_sreq", "enum_value"]
 
@@ -112,7 +112,11 @@ def build(cfg):
                        Node("x", "field", (M, "Outer", "x"), vis="local"), Node("xa", "abbrev", (M, "Outer", "x"), vis="private"),
                        Node("y", "field", (M, "Outer", "y"), vis="local", ftype=iaa),
                        Node("ya", "field", (M, "Outer", "ya"), vis="local", ftype=iaa)]
-    lines += ["  0 [+1]  Int  x (xa)", "    [requires: this < 100]", "  1 [+1]  im.Aa  y", "  4 [+p]  Int:8[]  tail", "  let ya = y"]
+    lines += ["  0 [+1]  Int  x (xa)", "    [requires: this < 100]", "  1 [+1]  im.Aa  y", "  4 [+p]  Int:8[]  tail", "  let ya = y",
+              # an anonymous bits block whose own condition uses the abbreviation of one of its members
+              "  3 [+1]  bits:", "    0 [+4]  Int  nib (nb)", "    if nb > 2:", "      4 [+1]  Flag  big"]
+    outer.children += [Node("nib", "field", (M, "Outer", "nib"), vis="local"), Node("nb", "abbrev", (M, "Outer", "nib"), vis="private"),
+                       Node("big", "field", (M, "Outer", "big"), vis="local")]
     dd = Node("Dd", "struct", (M, "Dd"))
     dd.children = [Node("z", "field", (M, "Dd", "z"), vis="local"), Node("o", "field", (M, "Dd", "o"), vis="local", ftype=outer),
                    Node("im", "field", (M, "Dd", "im"), vis="local"),
